@@ -436,6 +436,23 @@ fn run_compaction_scenario(run: &Run, idx: u64, seed: u64, sc: &Scratch) -> Outc
 		}
 		ok = step(chain.as_ref().unwrap(), gb, &mut h, &mut accepted, &mut out, "spender_branch", true, &mut prng);
 	}
+	// every second scenario: the headers of the competing (heavier) fork are known before the compaction, so the
+	// header chain's head sits on another fork than the body head while the node compacts
+	let headers_first = idx % 2 == 1;
+	if ok && headers_first {
+		let c = chain.as_ref().unwrap();
+		for gb in [&fork1, &fork2] {
+			if let Err(e) = c.process_block_header(&gb.block.header, opts) {
+				run.violation(
+					"C02;compaction_scenario;valid_header_rejected",
+					&format!("header of fork block {} rejected: {:?}", gb.hash, e),
+					replay.clone(),
+				);
+				ok = false;
+			}
+		}
+		run.count("compaction_scenarios_with_header_chain_on_the_competing_fork", 1);
+	}
 	if ok {
 		let c = chain.as_ref().unwrap();
 		let tail_before = c.tail().ok().map(|t| t.height);
